@@ -115,3 +115,34 @@ def eval_show(tag, carrier, exp_str, extra_imports=""):
         return re.sub(r"\s+", " ", outs[0])[:4000]
     except Exception as e:
         return "model evaluation failed: %s" % e
+
+
+def eval_nat_lists(tag, imports, defs, exprs, shard=400, timeout=900):
+    """Evaluate Coq expressions of type `list nat` (one per case) with vm_compute; returns a list of python int lists.
+    imports: 'From TT Require Import ...' line(s); defs: extra definitions text."""
+    if not exprs:
+        return []
+    texts = []
+    for s in range(0, len(exprs), shard):
+        chunk = exprs[s:s + shard]
+        body = "From Coq Require Import List ZArith Arith Bool.\nImport ListNotations.\n" + imports + "\n" + defs + "\n"
+        body += "Definition cases : list (list nat) := [\n" + ";\n".join(chunk) + "].\n"
+        body += "Eval vm_compute in cases.\n"
+        texts.append(body)
+    outs = run_files(tag, texts, timeout=timeout)
+    res = []
+    for o, s in zip(outs, range(0, len(exprs), shard)):
+        m = re.search(r"=\s*(\[.*\])\s*:\s*list \(list nat\)", o, flags=re.S)
+        if not m:
+            raise RuntimeError("cannot parse coq output: " + o[-2000:])
+        txt = m.group(1)
+        inner = re.findall(r"\[([0-9;\s]*)\]", txt[1:-1]) if txt.strip() != "[]" else []
+        vals = [[int(x) for x in re.findall(r"\d+", g)] for g in inner]
+        n = min(shard, len(exprs) - s)
+        if len(vals) != n:
+            raise RuntimeError("expected %d results, got %d: %s" % (n, len(vals), o[-600:]))
+        res += vals
+    return res
+
+def zlist(vals):
+    return "[" + ";".join("(%d)" % int(v) for v in vals) + "]%Z"
